@@ -132,7 +132,7 @@ def showCmp (P : Params Dy) (cfg : Cfg) (a b : Val Dy) : String :=
   let o := if ops.any (fun x => match x with | .error _ => true | .ok _ => false) then "ERR"
     else String.join (ops.map fun x => match x with | .ok v => bit v | .error _ => "?")
            ++ bit (teqVal P cfg a b) ++ bit (!teqVal P cfg a b)
-  s!"{r} o={o}"
+  s!"{r} o={o} q={bit (teqVal P cfg a b)}{bit (!teqVal P cfg a b)}"
 
 def parseFold (n : Nat) (s : String) : Array Nat := Id.run do
   let mut a := Array.range n
@@ -144,6 +144,28 @@ def parseFold (n : Nat) (s : String) : Array Nat := Id.run do
         if u < n then a := a.set! u l.toNat!
       | _ => pure ()
   return a
+
+def hex (k : Nat) (l : Str) : String :=
+  String.join (l.map fun n =>
+    let ds := (Nat.toDigits 16 n)
+    String.mk (List.replicate (k - ds.length) '0' ++ ds))
+
+def showDy : Dy → String
+  | .fin m e => s!"{m}:{e}"
+  | .pinf => "inf" | .ninf => "-inf" | .nan => "nan"
+
+/-- the head of a value's descriptor: kind, payload, flag (what identifies a value in the check) -/
+def showHead : Val Dy → String
+  | .nil => "N"
+  | .char c => s!"C{c}"
+  | .bchr b => s!"B{b}"
+  | .int i => s!"I{i}"
+  | .flt f => s!"F{showDy f}"
+  | .str s n => s!"S{n};{hex 4 s}"
+  | .mbs s n => s!"M{n};{hex 2 s}"
+  | .fn i => s!"U{i}"
+  | .map n => s!"P{n}"
+  | .arr n => s!"A{n}"
 
 def parseAll (ds : List String) : Option (List (Val Dy) × Tables) :=
   let r : Option (List (Val Dy) × Tables) := ds.foldlM (fun (acc : List (Val Dy) × Tables) d =>
@@ -168,6 +190,37 @@ def step (st : St) (line : String) : St × String :=
       let src : Option (List (Nat × Val Dy)) := if kind == "nil" then none else some (vs.zipIdx.map fun (v, i) => (i, v))
       match asortBy P cfg (fun (x : Nat × Val Dy) => x.2) src with
       | .ok (rv, out) => (st, s!"rv={rv} out={joinWith "," (out.map fun x => toString x.1)}")
+      | .error _ => (st, "ERR")
+    | _, _ => (st, "bad-op")
+  | "asortx" :: c :: ck :: kv :: mode :: items =>
+    -- items: <key>=<descriptor>; key = hex4 units (map) or slot number (array), in traversal / slot order
+    let kds := items.map fun it => match it.splitOn "=" with
+      | k :: rest => (k, "=".intercalate rest)
+      | [] => ("", "")
+    match parseCfg c, parseAll (kds.map (·.2)) with
+    | some cfg, some (vs, t) =>
+      let P := mkParams st t
+      let keys := kds.map (·.1)
+      let src : Src Dy :=
+        if mode == "n" then .nil
+        else if mode == "m" then .map ((keys.zip vs).map fun (k, v) => (parseHex 4 k, v))
+        else
+          let kv' := (keys.zip vs).map fun (k, v) => (k.toNat!, v)
+          let size := kv'.foldl (fun m p => max m (p.1 + 1)) 0
+          .arr ((List.range size).map fun j => (kv'.find? (·.1 == j)).map (·.2))
+      let cmp : Val Dy → Val Dy → Except Err Int :=
+        if ck == "u" then userCmp3 P cfg
+        else if ck == "r" then (fun a b => neg (userCmp3 P cfg a b))
+        else if ck == "z" then (fun _ _ => .ok 0)
+        else if ck == "e" then
+          -- the harness's `uerr`: fails (1 % nil) as soon as one operand == 13, else the three-way comparison
+          (fun a b =>
+            match evalOp P cfg .eq a (.int 13), evalOp P cfg .eq b (.int 13) with
+            | .ok false, .ok false => userCmp3 P cfg a b
+            | _, _ => .error .eoperand)
+        else cmpVal P cfg .none
+      match fncAsortSrc cmp (kv == "k") src with
+      | .ok (rv, out) => (st, s!"rv={rv} out={joinWith "," (out.map showHead)}")
       | .error _ => (st, "ERR")
     | _, _ => (st, "bad-op")
   | _ => (st, "bad-op")
